@@ -129,3 +129,40 @@ def _short_ty(t):
     t = t.replace("alpenglow::", "")
     t = re.sub(r"([a-z_0-9]+::)+", "", t)
     return t[:50]
+
+
+def review(ob, prog, roots, table, fshort, stop=(), include_overflow=False, scope=None, skip=None):
+    """Reviewed-panic-site closure: every panic site in bodies reachable from `roots` (optionally
+    restricted by scope(defpath)) must be covered by `table`:
+        (fn path without crate prefix, kind, what) -> (max_count, reason[, status])
+    status 'ok' (default) or 'finding' (reported as a failure with its own key so that it can be
+    listed in known_findings.json). An unlisted site, or more sites than reviewed, is a failure."""
+    U = prog.reachable_from(roots, stop=stop)
+    groups = {}
+    nbodies = 0
+    for d in sorted(U):
+        b = prog.bodies[d]
+        if b.generated:
+            continue
+        if scope is not None and not scope(d):
+            continue
+        nbodies += 1
+        for s in sites(b, prog, include_overflow=include_overflow):
+            if skip is not None and skip(s):
+                continue
+            groups.setdefault((d.replace("alpenglow::", ""), s.kind, s.what), []).append(s)
+    for k, ss in sorted(groups.items()):
+        rev = table.get(k)
+        status = rev[2] if rev and len(rev) > 2 else "ok"
+        if rev and status == "finding":
+            for s in ss:
+                ob.fail("%s|%s|%s" % k, "reviewed as a genuine finding: %s" % rev[1], s.span, {"msg": s.msg})
+            continue
+        n_ok = min(len(ss), rev[0]) if rev else 0
+        if n_ok:
+            ob.ok("%s|%s|%s" % k, "reviewed (%d site(s)): %s" % (n_ok, rev[1]), ss[0].span)
+        for s in ss[n_ok:]:
+            chain = prog.call_chain(list(roots), s.body.defpath)
+            ob.fail("%s|%s|%s|unreviewed|%d" % (k[0], k[1], k[2], s.ordinal), "unreviewed panic site (%s %s %r)" % (s.kind, s.what, s.msg), s.span,
+                    {"call_chain": [fshort(x) for x in chain][-6:] if chain else None, "reviewed_count": rev[0] if rev else 0, "found": len(ss)})
+    return nbodies, sum(len(v) for v in groups.values())
